@@ -235,6 +235,8 @@ type DispatchWorld struct {
 	settleLog  []string
 	taskItems  map[*Task][]queue.Envelope // what each worker holds (from its last dequeue)
 	expect     map[string]*settlement     // by lease id: the settlement the recorded outcome calls for
+	leaseUntil map[string]time.Time       // by lease id: expiry as granted
+	stalled    map[*Task]bool             // the simulator moved the clock while this worker was mid-cycle (since its last dequeue)
 }
 
 func (w *DispatchWorld) add(rule, props, loc, format string, a ...any) {
@@ -278,7 +280,7 @@ func (w *DispatchWorld) curDelivery() *delivery {
 }
 
 func NewDispatchWorld(spec *SysSpec, offset int64, seed int64, arm func(string) bool) (*DispatchWorld, error) {
-	w := &DispatchWorld{byID: map[string]*dmsg{}, byLease: map[string]*dmsg{}, cur: map[*Task]*delivery{}, inDeliver: map[string]*Task{}, taskItems: map[*Task][]queue.Envelope{}, expect: map[string]*settlement{}}
+	w := &DispatchWorld{byID: map[string]*dmsg{}, byLease: map[string]*dmsg{}, cur: map[*Task]*delivery{}, inDeliver: map[string]*Task{}, taskItems: map[*Task][]queue.Envelope{}, expect: map[string]*settlement{}, leaseUntil: map[string]time.Time{}, stalled: map[*Task]bool{}}
 	w.Model = NewModel(sysQConfig(spec))
 	sw, err := NewSysWorld(spec, offset, SysOptions{Seed: seed, ArmPoints: arm, OnStore: func(ss *SimStore) {
 		ss.OnEnqueue = func(envs []queue.Envelope, batch bool, n int, err error) {
@@ -300,6 +302,17 @@ func NewDispatchWorld(spec *SysSpec, offset int64, seed int64, arm func(string) 
 			}
 			d.lookups[host] = ips
 			d.failed[host] = failed
+		}
+	}
+	w.Net.OnDelay = func(time.Duration) {
+		// one clock for all workers: a delay met by one worker also passes for
+		// every other worker that is in the middle of a cycle, where in a real
+		// process the waits would overlap. Those workers count as stalled.
+		cur := w.Sched.Current()
+		for t := range w.taskItems {
+			if t != cur {
+				w.stalled[t] = true
+			}
 		}
 	}
 	w.Net.OnRequest = func(nr *NetRequest, received bool) {
@@ -327,7 +340,12 @@ func (w *DispatchWorld) onDequeue(req queue.DequeueRequest, resp queue.DequeueRe
 	w.addAll(w.Model.Dequeue(now, req, resp, err), "dispatch/dequeue")
 	t := w.Sched.Current()
 	w.taskItems[t] = append([]queue.Envelope(nil), resp.Items...)
+	w.stalled[t] = false
+	if len(resp.Items) > 1 {
+		w.Res.probe("dispatch.microbatch")
+	}
 	for _, it := range resp.Items {
+		w.leaseUntil[it.LeaseID] = it.LeaseUntil
 		dm := w.byID[it.ID]
 		if dm == nil {
 			continue
@@ -460,6 +478,13 @@ func (w *DispatchWorld) onAttempt(a queue.DeliveryAttempt, err error) {
 	}
 	if len(d.hops) > 0 && d.hops[0].received {
 		dm.sends++
+	}
+	// C03 at the dispatcher: the lease TTL is sized so that a sequential
+	// micro-batch cannot outlive its leases. Unless the simulator stalled this
+	// worker (clock moved while it was parked mid-cycle), every delivery starts
+	// and is settled while the worker's own lease is still running.
+	if held != nil && len(d.hops) > 0 && !w.stalled[t] && !held.LeaseUntil.IsZero() && !d.hops[0].nr.At.Before(held.LeaseUntil) {
+		w.add("C03.dispatch.lease_outlived", "C03,C06", "dispatch/deliver", "worker started the delivery of %s at %s although its lease ran out at %s and nothing stalled the worker (deliveries of one micro-batch took longer than the lease the dispatcher asked for)", dm.token, off(d.hops[0].nr.At), off(held.LeaseUntil))
 	}
 	outcome, reason := refOutcome(final, status, a.Attempt, retry.Max)
 	w.Res.probe("deliver." + final + "." + outcome)
@@ -620,6 +645,10 @@ func (w *DispatchWorld) onLease(method string, ids []string, d time.Duration, re
 		if err != nil || conflicts[id] {
 			dm.conflict = true
 		}
+		if until, ok := w.leaseUntil[id]; ok && !now.Before(until) && !w.stalled[w.Sched.Current()] {
+			w.add("C03.dispatch.lease_outlived", "C03,C06", loc, "%s of %s at %s: the worker's lease ran out at %s although nothing stalled the worker (the micro-batch took longer than the lease the dispatcher asked for, so the message is delivered again)", method, dm.token, off(now), off(until))
+		}
+		delete(w.leaseUntil, id)
 		ex := w.expect[id]
 		if ex == nil {
 			w.add("C06.settle.norecord", "C06", loc, "%s of %s without a recorded attempt", method, dm.token)
@@ -903,6 +932,9 @@ func (w *DispatchWorld) InterleaveStep(s Step) {
 			w.Clock.Advance(s.D)
 			trace = append(trace, "stall:"+s.D.String())
 			w.Res.probe("dispatch.stall")
+			for t := range active {
+				w.stalled[t] = true
+			}
 		}
 		ci++
 		t := run[c%len(run)]
